@@ -69,7 +69,78 @@ define flow {name}
 """
 
 
+
+SAME_RAIL_TWICE = """
+define bot refuse both1
+  "REFUSED-both1"
+
+define flow both1
+  $r = execute verif_rail(rail="both1", text=$bot_message)
+  if not $r
+    bot refuse both1
+    stop
+
+define flow outv1
+  $r = execute verif_rail(rail="outv1", text=$bot_message)
+  if not $r
+    $refusal = "REFUSED-outv1"
+    bot $refusal
+    stop
+"""
+
+
+def explore_same_rail_twice(_task):
+    """one rail flow runs twice within one call - listed as input AND output rail, or an output rail whose refusal
+    (a message taken from a variable) is checked by the output rails again: `stop` belongs to the occurrence that blocked"""
+    res = {"evaluations": 0, "rails_only_cases": 0, "blocked_cases": 0, "rewritten_cases": 0, "viol": []}
+    cases = [
+        ("listed-as-input-and-output", "rails:\n  input:\n    flows: [both1]\n  output:\n    flows: [both1]\n", ["input", "output"], "both1",
+         [("input", "both1", False), ("output", "both1", True)]),
+        ("refusal-from-variable-rechecked", "rails:\n  output:\n    flows: [outv1]\n", ["output"], "outv1",
+         [("output", "outv1", True), ("output", "outv1", False)]),
+    ]
+    for name, yaml, subset, rail, want_log in cases:
+        world = rw.World(SAME_RAIL_TWICE, yaml)
+        for verdict_on_bot in ("R", "A"):
+            bot_text = f"B-{name}-{verdict_on_bot} supplied answer"
+            msgs = [{"role": "user", "content": "U hello"}, {"role": "assistant", "content": bot_text}]
+            # the occurrence that judges the bot message: the 2nd one for the flow listed twice (its 1st run is the input
+            # rail), the 1st one for the rail whose refusal is checked again
+            deciding = 2 if name == "listed-as-input-and-output" else 1
+            count = [0]
+
+            def verdict(text, _v=verdict_on_bot, _d=deciding, _c=count):
+                _c[0] += 1
+                return _v if _c[0] == _d else "A"
+
+            verdicts = {rail: verdict}
+            turn = rw.run_turn(world, msgs, verdicts, llm_fn_for("none"), options={"rails": subset, "log": {"activated_rails": True}})
+            res["evaluations"] += 1
+            res["rails_only_cases"] += 1
+            info = {"engine": "E3-world", "prop": "C16", "same_rail_twice": name, "verdict_on_bot_message": verdict_on_bot}
+            sig = f":same-rail-twice:{name}"
+            if turn.exc is not None:
+                res["viol"].append(("generate-raised" + sig, repr(turn.exc), info))
+                continue
+            log = getattr(turn.reply, "log", None)
+            ar = [(r.type, r.name, bool(r.stop)) for r in (log.activated_rails if log is not None else []) if r.type in ("input", "output")]
+            if verdict_on_bot == "R":
+                res["blocked_cases"] += 1
+                if turn.text != f"REFUSED-{rail}":
+                    res["viol"].append(("reply-is-not-the-refusal" + sig, f"{rail} blocked the bot message; reply {turn.text!r}", info))
+                if ar != want_log:
+                    res["viol"].append(("log-stop-flag" + sig, f"log {ar}, expected {want_log} (stop on the occurrence that blocked)", info))
+            else:
+                if turn.text != bot_text:
+                    res["viol"].append(("supplied-bot-message-reply" + sig, f"expected {bot_text!r}, got {turn.text!r}", info))
+                if any(st for _t, _n, st in ar):
+                    res["viol"].append(("log-stop-flag" + sig, f"nothing blocked but the log has a stop: {ar}", info))
+    return res
+
+
 def explore(task):
+    if task[0] == "same-rail-twice":
+        return explore_same_rail_twice(task)
     dialog_world, subsets = task[:2]
     variable_refusal = len(task) > 2 and task[2] == "variable-refusal"
     res = {"evaluations": 0, "rails_only_cases": 0, "blocked_cases": 0, "rewritten_cases": 0, "viol": []}
@@ -260,6 +331,7 @@ def run(rep, tier):
         for i in range(0, len(subs), 2):
             ts.append((dw, subs[i:i + 2]))
     ts.append((False, [x for x in subs if "input" in x], "variable-refusal"))
+    ts.append(("same-rail-twice",))
     agg = {}
     for r in par.pmap(explore, ts):
         for k, v in r.items():
